@@ -43,9 +43,16 @@ BOUNDS['replay'] = BOUNDS['quick']
 WIDE = {'cols': [3, 7, 299], 'labels_dtypes': ['uint8', 'int8', 'int16', 'list']}
 
 
+MAGNITUDES = {'big': (np.float64, lambda v: v + 1000.0), 'f32big': (np.float32, lambda v: float(np.float32(v + 200.0))),
+              'tiny': (np.float64, lambda v: v * 1e-17)}      # costs far outside the usual range of negative log-probabilities
+
+
 def rows_for(C, dtype='f64'):
     if dtype == 'i64':
         return ROWS3I
+    if dtype in MAGNITUDES:
+        f = MAGNITUDES[dtype][1]
+        return [[f(v) for v in r] for r in ROWS3 if INF not in r]
     if C == 300:
         return ROWS3
     return ROWS3 if C == 3 else ROWS4
@@ -69,7 +76,7 @@ def shards(tier):
                 for p in itertools.product(range(R), repeat=2):
                     out.append({'C': C, 'T': t, 'prefix': list(p)})
     # the same search on matrices of other dtypes (float32, int64): unusual but legal inputs
-    for dt in ('f32', 'i64'):
+    for dt in ('f32', 'i64', 'big', 'f32big', 'tiny'):
         for t in range(1, b['Tdtype'] + 1):
             out.append({'C': 3, 'T': t, 'prefix': [], 'dtype': dt})
     # a 300-symbol output layer (blank = 299) with the labels held in small-integer numpy arrays
@@ -134,7 +141,8 @@ def check_case(case, ctx):
     RA = rows_for(C, dt)
     M = [RA[i] for i in rows]
     T = len(M)
-    A = np.asarray(M, dtype={'f64': np.float64, 'f32': np.float32, 'i64': np.int64}[dt])
+    A = np.asarray(M, dtype={'f64': np.float64, 'f32': np.float32, 'i64': np.int64}[dt] if dt not in MAGNITUDES else MAGNITUDES[dt][0])
+    unit = 1e-17 if dt == 'tiny' else 1.0                    # tolerances are relative to the magnitude of the costs
     if C == 300:
         return check_wide(case, ctx, M)
     best = brute(M, blank)
@@ -143,6 +151,8 @@ def check_case(case, ctx):
     K = f'{ID}/C{C}' + ('' if dt == 'f64' else f'/{dt}')
     if dt != 'f64':
         ctx.tag('non-float64-cost-matrices')
+    if dt in MAGNITUDES:
+        ctx.tag('unusual-cost-magnitudes')
     for labels in labsets:
         sub = dict(case, labels=labels)
         key = tuple(labels)
@@ -173,7 +183,7 @@ def check_case(case, ctx):
                           f'force_align returned {got} (T={T}) which collapses to {list(collapse(got, blank))}, labels {labels}, blank {blank}', sub)
             continue
         cost = sum(M[t][s] for t, s in enumerate(got))
-        if finite and not (abs(cost - best[key]) <= 1e-9):
+        if finite and not (abs(cost - best[key]) <= (1e-9 if dt != 'f32big' else 1e-3) * unit):
             ctx.violation('minimum-cost', f'{K}/force_align/suboptimal',
                           f'force_align returned {got} with cost {cost}; minimum over all alignments is {best[key]} '
                           f'(labels {labels}, blank {blank}, costs {M})', sub)
@@ -198,7 +208,7 @@ def check_case(case, ctx):
             ctx.violation('collapses-to-labels', f'{K}/force_align/seq-positions-invalid',
                           f'force_align(return_seq_positions=True) = {seq} is not an alignment of labels {labels}', sub)
             continue
-        conf = (-A).max(axis=-1)
+        conf = (-np.asarray(M, dtype=float)).max(axis=-1)
         bad = None
         for i in range(len(labels)):
             frames = [t for t in range(T) if seq[t] == i]
@@ -206,7 +216,7 @@ def check_case(case, ctx):
                 bad = f'position {pos[i]} of character {i} is not among its aligned frames {frames}'
                 kind = 'outside-aligned-frames'
                 break
-            if conf[pos[i]] < max(conf[t] for t in frames) - 1e-12:
+            if conf[pos[i]] < max(conf[t] for t in frames) - 1e-12 * unit:
                 bad = (f'position {pos[i]} of character {i} has confidence {conf[pos[i]]}, but frame '
                        f'{max(frames, key=lambda t: conf[t])} of its frames {frames} has {max(conf[t] for t in frames)}')
                 kind = 'not-most-confident'
@@ -288,6 +298,6 @@ def describe(tier):
                         'ties: any minimum-cost alignment and any most-confident frame is accepted',
                         'per-frame confidence = max over symbols of the frame (as stated: "where the network is most confident")'],
         'min_nontrivial': 100,
-        'required_tags': ['repeated-label-aligned', 'multi-frame-char-with-distinct-confidences', 'only-infinite-alignments',
+        'required_tags': ['unusual-cost-magnitudes', 'repeated-label-aligned', 'multi-frame-char-with-distinct-confidences', 'only-infinite-alignments',
                           'non-float64-cost-matrices', 'wide-alphabet-small-int-labels'],
     }
